@@ -253,15 +253,43 @@ func check(h []rec, strict bool) porcupine.CheckResult {
 	return porcupine.CheckOperationsTimeout(model(strict), toOps(h), checkTimeout)
 }
 
-// core greedily drops operations while the history stays non-linearizable: a small set of
-// operations that cannot be ordered, used to name the failure class (the full history is the witness).
+// core shrinks a non-linearizable per-key history to a small set of operations that still cannot be
+// ordered; it only names the failure class (the full history is the witness). Pure reads can be
+// dropped soundly (a linearization of the rest would extend to them or not, but never the other way
+// round); state-changing operations are dropped only while every remaining read still has the
+// write it depends on, so that the core does not become illegal merely for lack of its writer.
 func core(h []rec, strict bool) []rec {
+	supported := func(c []rec) bool {
+		vals, anyWrite := map[int]bool{}, false
+		for _, x := range c {
+			if wroteSomething(x) {
+				anyWrite = true
+				vals[x.Op.Val] = true
+			}
+		}
+		for _, x := range c {
+			switch outClass(x) {
+			case "Get=value", "GetOrWait=value", "AddOrGet=existing", "GetOrSet=stored":
+				if x.Out.Val != 0 && !vals[x.Out.Val] {
+					return false
+				}
+				if !anyWrite {
+					return false
+				}
+			case "Add=false", "Await", "Contains=true":
+				if !anyWrite {
+					return false
+				}
+			}
+		}
+		return true
+	}
 	cur := append([]rec{}, h...)
 	for changed := true; changed; {
 		changed = false
 		for i := 0; i < len(cur); i++ {
 			cand := append(append([]rec{}, cur[:i]...), cur[i+1:]...)
-			if len(cand) > 0 && check(cand, strict) == porcupine.Illegal {
+			if len(cand) > 0 && supported(cand) && check(cand, strict) == porcupine.Illegal {
 				cur = cand
 				changed = true
 				i--
@@ -328,6 +356,7 @@ const containsKey = "contains-true/awaited-key-never-added"
 var (
 	containsSeen  atomic.Bool  // the minimised core is computed for the first witness only
 	coresComputed atomic.Int64 // cap on the (quadratic) classification work
+	errmapHung    atomic.Bool  // a GetOrSet deadlock was seen: later ErrMap cases are skipped (each costs a watchdog)
 )
 
 // ---------------------------------------------------------------------------------------------
@@ -899,10 +928,66 @@ func genErrProgram(rng *rand.Rand) program {
 	return p
 }
 
-func runErrMap(p program) (history, int64, int64, map[int]int) {
+// A hang is the classified outcome of a fired watchdog: every unfinished client sits between the
+// limiter's Release and Acquire inside ErrMap.GetOrSet (i.e. in `<-wait`), twice, one second apart,
+// and no other goroutine has access to the map, so nobody is left who could close the channel.
+type hang struct {
+	Unfinished int64  `json:"unfinished_clients"`
+	Waiting    int64  `json:"clients_between_release_and_acquire"`
+	Blocked    bool   `json:"classified_blocked"`
+	Dump       string `json:"goroutines_in_GetOrSet"`
+}
+
+const hangWatchdog = 15 * time.Second
+
+// awaitClients waits for the clients; when the (generous) watchdog fires it classifies the situation.
+func awaitClients(wg *sync.WaitGroup, finished *atomic.Int64, nClients int, lim *limiter) *hang {
+	done := make(chan struct{})
+	go func() { wg.Wait(); close(done) }()
+	tm := time.NewTimer(hangWatchdog)
+	defer tm.Stop()
+	select {
+	case <-done:
+		return nil
+	case <-tm.C:
+	}
+	sample := func() (int64, int64) {
+		// read Acquire first: waiting is then never over-estimated
+		a := lim.acq.Load()
+		return int64(nClients) - finished.Load(), lim.rel.Load() - a
+	}
+	u1, w1 := sample()
+	time.Sleep(time.Second)
+	u2, w2 := sample()
+	select {
+	case <-done:
+		return nil // merely slow
+	default:
+	}
+	hg := &hang{Unfinished: u2, Waiting: w2}
+	hg.Blocked = u1 == u2 && w1 == w2 && u2 > 0 && w2 == u2
+	buf := make([]byte, 1<<22)
+	buf = buf[:runtime.Stack(buf, true)]
+	var keep []string
+	for _, g := range strings.Split(string(buf), "\n\n") {
+		if strings.Contains(g, "cmap.(*ErrMap") && strings.Contains(g, "GetOrSet") {
+			if len(g) > 700 {
+				g = g[:700]
+			}
+			keep = append(keep, g)
+		}
+		if len(keep) >= 8 {
+			break
+		}
+	}
+	hg.Dump = strings.Join(keep, "\n\n")
+	return hg
+}
+
+func runErrMap(p program) (history, int64, int64, map[int]int, *hang) {
 	lim := &limiter{}
 	m := cmap.NewErrMap[int, int](p.Cfg.Shards, p.Cfg.hasher(), lim)
-	var clock atomic.Int64
+	var clock, finished atomic.Int64
 	tick := func() int64 { return clock.Add(1) }
 	start := make(chan struct{})
 	var wg sync.WaitGroup
@@ -913,6 +998,7 @@ func runErrMap(p program) (history, int64, int64, map[int]int) {
 		wg.Add(1)
 		go func(c int) {
 			defer wg.Done()
+			defer finished.Add(1)
 			<-start
 			for _, o := range p.Clients[c] {
 				var res out
@@ -947,12 +1033,24 @@ func runErrMap(p program) (history, int64, int64, map[int]int) {
 		}(c)
 	}
 	close(start)
-	wg.Wait()
+	if hg := awaitClients(&wg, &finished, len(p.Clients), lim); hg != nil {
+		return history{}, 0, 0, nil, hg // the clients are leaked; their records are not read
+	}
 	var h history
 	for c := range perClient {
 		h.recs = append(h.recs, perClient[c]...)
 	}
-	return h, lim.acq.Load(), lim.rel.Load(), computes
+	return h, lim.acq.Load(), lim.rel.Load(), computes, nil
+}
+
+// reportHang turns a classified watchdog outcome into a violation (blocked) or an inconclusive note.
+func reportHang(r *lib.Run, stream string, i int, p program, hg *hang) {
+	if hg.Blocked {
+		r.Violation("errmap/getorset-waiter-never-released", fmt.Sprintf("%d client(s) are blocked for good in ErrMap.GetOrSet's wait: every unfinished client is waiting, nobody is left to add the key (lost wake-up)", hg.Unfinished),
+			map[string]any{"program": p, "classification": hg}, i)
+	} else {
+		r.Inconclusive(fmt.Sprintf("%s case %d: watchdog fired but the clients are not all blocked in GetOrSet (unfinished=%d waiting=%d)", stream, i, hg.Unfinished, hg.Waiting))
+	}
 }
 
 // ---------------------------------------------------------------------------------------------
@@ -1071,8 +1169,17 @@ func TestC15(t *testing.T) {
 	r.ForEach("errmap", r.Pick(3000, 40000), workers, func(i int, rng *rand.Rand) {
 		p := genErrProgram(rng)
 		for k := 0; k < reps; k++ {
-			h, acq, rel, computes := runErrMap(p)
+			if errmapHung.Load() {
+				r.Obs("cases_skipped_after_a_hang", 1)
+				return
+			}
+			h, acq, rel, computes, hg := runErrMap(p)
 			r.Case("errmap/"+p.hash(), len(p.Clients) > 1)
+			if hg != nil {
+				errmapHung.Store(true)
+				reportHang(r, "errmap", i, p, hg)
+				return
+			}
 			r.Obs("errmap_histories", 1)
 			if acq != rel {
 				r.Violation("errmap/limiter-unbalanced", fmt.Sprintf("limiter Release called %d times, Acquire %d times", rel, acq), map[string]any{"program": p}, i)
@@ -1092,8 +1199,16 @@ func TestC15(t *testing.T) {
 	// so the race detector sees the map's own synchronisation only.
 	r.ForEach("stress", r.Pick(200, 3000), workers, func(i int, rng *rand.Rand) {
 		p := genProgram(rng, 4, 8)
-		stress(p)
+		if errmapHung.Load() {
+			r.Obs("cases_skipped_after_a_hang", 1)
+			return
+		}
 		r.Case("stress/"+p.hash(), true)
+		if hg := stress(p); hg != nil {
+			errmapHung.Store(true)
+			reportHang(r, "stress", i, p, hg)
+			return
+		}
 		r.Obs("stress_runs", 1)
 	})
 
@@ -1104,15 +1219,18 @@ func TestC15(t *testing.T) {
 	r.RequireObserved("concurrent_histories", "partitions_checked", "waiters_released_after_add", "histories_with_overlapping_write_on_a_key", "hook_cmap.get.upgrade_hits_in_dry_run", "errmap_waits(limiter_released)")
 }
 
-func stress(p program) {
+func stress(p program) *hang {
 	m := cmap.New[int, int](p.Cfg.Shards, p.Cfg.hasher())
-	em := cmap.NewErrMap[int, int](p.Cfg.Shards, p.Cfg.hasher(), nil)
+	lim := &limiter{} // touched only on GetOrSet's wait path
+	em := cmap.NewErrMap[int, int](p.Cfg.Shards, p.Cfg.hasher(), lim)
 	start := make(chan struct{})
 	var wg sync.WaitGroup
+	var finished atomic.Int64
 	for c := range p.Clients {
 		wg.Add(1)
 		go func(c int) {
 			defer wg.Done()
+			defer finished.Add(1)
 			<-start
 			for round := 0; round < 3; round++ {
 				for _, o := range p.Clients[c] {
@@ -1127,7 +1245,7 @@ func stress(p program) {
 		}(c)
 	}
 	close(start)
-	wg.Wait()
+	return awaitClients(&wg, &finished, len(p.Clients), lim)
 }
 
 // TestC15Child is the hook dry run: a few concurrent programs with VERIF_HOOK_COUNT set.
